@@ -40,6 +40,7 @@ func c01Configs() map[string]scn.Config {
 		"avincr":  cfgWith(func(c *scn.Config) { c.AutoVacuum = "INCREMENTAL" }),
 		"avfull":  cfgWith(func(c *scn.Config) { c.AutoVacuum = "FULL" }),
 		"nostore": cfgWith(func(c *scn.Config) { c.UseStore = false }),
+		"ltx1":    cfgWith(func(c *scn.Config) { c.MaxSyncLTXFiles = 1 }),
 		"ps1024":  cfgWith(func(c *scn.Config) { c.PageSize = 1024 }),
 		"ps2048":  cfgWith(func(c *scn.Config) { c.PageSize = 2048; c.MinCheckpointPageN = 4 }),
 		"ps8192":  cfgWith(func(c *scn.Config) { c.PageSize = 8192 }),
@@ -156,6 +157,10 @@ func c01(args []string) int {
 		Layer{Name: "exact/base/tx", Cfg: cfgs["base"], Alphabet: alphaTx, Depth: d(3, 5)},
 		Layer{Name: "exact/avincr/shape", Cfg: cfgs["avincr"], Alphabet: alphaShape, Depth: d(3, 4)},
 		Layer{Name: "exact/base/life", Cfg: cfgs["base"], Alphabet: alphaLife, Depth: d(3, 5)},
+		// clean shutdown with a multi-transaction backlog under a sync byte budget (Close must flush everything)
+		Layer{Name: "seeded/chunk1/close-backlog", Cfg: cfgs["chunk1"], Alphabet: strings.Fields("W1 W3 U S CL"), Depth: d(3, 5),
+			Seeds: [][]string{strings.Fields("S"), strings.Fields("W1 SW")}},
+		Layer{Name: "exact/chunk1/close-backlog", Cfg: cfgs["chunk1"], Alphabet: strings.Fields("W1 W3 U S SW CL START"), Depth: d(3, 6)},
 		Layer{Name: "exact/chunk1/core", Cfg: cfgs["chunk1"], Alphabet: alphaCore, Depth: d(2, 4)},
 		Layer{Name: "exact/trunc4/core", Cfg: cfgs["trunc4"], Alphabet: alphaCore, Depth: d(2, 4)},
 		Layer{Name: "exact/ckint/core", Cfg: cfgs["ckint"], Alphabet: alphaCore, Depth: d(2, 4)},
@@ -171,6 +176,8 @@ func c01(args []string) int {
 		Layer{Name: "seeded/avfull/shape", Cfg: cfgs["avfull"], Alphabet: alphaShape, Depth: d(1, 3), Seeds: c01Seeds()},
 		Layer{Name: "seeded/chunk3/core", Cfg: cfgs["chunk3"], Alphabet: alphaCore, Depth: d(1, 3), Seeds: c01Seeds()},
 		Layer{Name: "seeded/nostore/life", Cfg: cfgs["nostore"], Alphabet: alphaLife, Depth: d(1, 3), Seeds: c01Seeds()},
+		// upload batches limited to one file per round (the monitor's MaxSyncLTXFiles path): RSL = limited Replica sync
+		Layer{Name: "seeded/ltx1/batched-upload", Cfg: cfgs["ltx1"], Alphabet: strings.Fields("W1 S S RSL SW LC:PASSIVE"), Depth: d(2, 4), Seeds: [][]string{strings.Fields("W1 S W1 S W1 S"), strings.Fields("W3 S LC:TRUNCATE W1 S")}},
 	)
 	// Layer 3: merged deep search over the wide alphabet.
 	layers = append(layers,
